@@ -34,6 +34,7 @@ type World struct {
 	funcs     map[string]*ssa.Function
 	specFiles []string
 	impls     []ImplSpec
+	inits     []GhostInit
 }
 
 // Ty is the type of a spec expression: a Go type, or a spec-only SMT sort.
@@ -218,6 +219,7 @@ func (w *World) addSpecFile(path, pkgPath string) error {
 		w.ignores = append(w.ignores, re)
 	}
 	w.impls = append(w.impls, sf.Implements...)
+	w.inits = append(w.inits, sf.Inits...)
 	return nil
 }
 
